@@ -64,7 +64,7 @@ class C09(P.Property):
     probe_names = ["scheme_" + s for s in fe.SCHEMES] + ["recreate_before_" + w for w in WORKFLOW[1:]] + [
         "recreate_before_first_search", "recreate_between_searches", "kept_object_whole_workflow", "server_restart_before_first_search",
         "server_restart_between_searches", "recreate_inside_cleanup_window", "absent_keyword", "near_miss_keyword", "nondefault_config",
-        "stall_over_60s", "decoy_service", "decoy_other_config", "idle_connection", "op_failed_under_fault", "server_read_error", "client_object_kept_after_fault", "blocked_by_other_connection", "real_restart_new_interpreter", "separate_hosts"]
+        "stall_over_60s", "decoy_service", "decoy_other_config", "idle_connection", "op_failed_under_fault", "server_read_error", "client_object_kept_after_fault", "blocked_by_other_connection", "real_restart_new_interpreter", "separate_hosts", "server_killed_mid_request"]
     thorough_probe_names = ["huge_payload"]
 
     def setup(self):
@@ -157,10 +157,13 @@ class C09(P.Property):
         knobs["separate_hosts"] = rng.random() < 0.3  # deployment: server and client on different machines (neither sees the other's files)
         if tier == "thorough" and rng.random() < float(os.environ.get("VERIF_C09_HUGE_RATE", "0.0004")):
             # a 12.6 MB index and 2 MB results (code paths only large payloads take: message splitting, frame limits)
-            knobs.update(scheme="CJJ14.PiBas", cfg_index=0, db={"__huge__": 180000}, decoy=False, stall=None, read_fault=None, blocker=None)
+            knobs.update(scheme="CJJ14.PiBas", cfg_index=0, db={"__huge__": 180000}, decoy=False, stall=None, read_fault=None, blocker=None, kill_mid=None)
             steps[:] = [dict(st, w=w_) for st, w_ in zip(steps[:4], ["huge-keyword", "small", "absent1", "huge-keyword"])]
-        knobs["blocker"] = None
+        knobs["kill_mid"] = None
         if knobs["stall"] is None and knobs["read_fault"] is None and rng.random() < 0.06:
+            knobs["kill_mid"] = {"search": rng.randrange(len(steps)), "after": rng.choice([0.0, 0.002, 0.01, 0.03, 0.08])}
+        knobs["blocker"] = None
+        if knobs["stall"] is None and knobs["read_fault"] is None and knobs["kill_mid"] is None and rng.random() < 0.06:
             knobs["blocker"] = {"search": rng.randrange(len(steps)), "hold": rng.choice([5, 30, 70, 70])}
         return {"property": "C09", "seed": seed, "knobs": knobs, "steps": steps}
 
@@ -346,6 +349,12 @@ class C09(P.Property):
                     await b.close()
                 run.sim.tasks.append(asyncio.ensure_future(release()))
                 stalled = True
+            km = knobs.get("kill_mid")
+            if km is not None and km["search"] == si:
+                # the server process dies while this request is in flight (any moment, not only at a disk event)
+                probes["server_killed_mid_request"] = 1
+                kill_handle = loop.call_later(km["after"], run.kill_server)
+                stalled = True
             rf = knobs.get("read_fault")
             if rf is not None and rf["search"] == si:
                 run.seam.fail_read = ("server", "edb")  # the server's next read of the stored index fails once (EMFILE)
@@ -357,7 +366,21 @@ class C09(P.Property):
             r = await host.search(sid, w, fresh=host.obj is None, keep=True)
             run.sim.stall_once = None
             first = False
-            hit = (run.sim.counters.get("read_error", 0) + run.sim.counters.get("stall", 0)) > nfault0 or (bl is not None and bl["search"] == si)
+            if km is not None and km["search"] == si and run.server.alive:
+                kill_handle.cancel()  # the reply won the race: no fault happened
+                km = None
+            hit = ((run.sim.counters.get("read_error", 0) + run.sim.counters.get("stall", 0)) > nfault0 or (bl is not None and bl["search"] == si)
+                   or (km is not None and km["search"] == si))
+            if not run.server.alive:
+                # (killed mid-request) the operator restarts the server program; the client process of that time is gone
+                await asyncio.sleep(0.2)
+                run.boot_server()
+                await asyncio.sleep(0.01)
+                out["restarts"] += 1
+                host.restart("client-k%d" % out["restarts"])
+                after_fault = False
+                if r[0] == "ok":
+                    r = ("exc", RuntimeError("reply raced the kill"))  # judged like a failed operation: retried below
             if run.sim.counters.get("read_error", 0):
                 probes["server_read_error"] = 1
             if r[0] != "ok":
@@ -367,7 +390,7 @@ class C09(P.Property):
                     out["obs"].append(("search", cls, "failed-under-fault"))
                     probes["op_failed_under_fault"] = 1
                     run.seam.fail_read = None
-                    if knobs.get("keep_after_fault") and not after_fault:
+                    if knobs.get("keep_after_fault") and not after_fault and host.obj is not None and not (km is not None and km["search"] == si):
                         after_fault = True  # a long-lived client simply goes on with its next search on the same object
                         probes["client_object_kept_after_fault"] = 1
                         continue
@@ -487,7 +510,7 @@ class C09(P.Property):
     def simplifications(self, plan):
         k = plan["knobs"]
         for key, val in (("skew", 1.0), ("bufsize", 8192), ("net", dict(lo=0.01, hi=0.01)), ("stall", None), ("restart_after_upload", False),
-                         ("recreate", [False] * 5), ("gaps", [0] * 5), ("cfg_index", 0), ("decoy", False), ("sse2_spare", 0), ("read_fault", None), ("blocker", None), ("real_restart", False), ("separate_hosts", False)):
+                         ("recreate", [False] * 5), ("gaps", [0] * 5), ("cfg_index", 0), ("decoy", False), ("sse2_spare", 0), ("read_fault", None), ("blocker", None), ("real_restart", False), ("separate_hosts", False), ("kill_mid", None)):
             if k.get(key) != val:
                 yield dict(plan, knobs=dict(k, **{key: val}))
         db = k["db"]
